@@ -149,6 +149,56 @@ func c14(c *Ctx) (*report.Result, error) {
 	res.Assumptions = []string{"a search-attribute container is *common.SearchAttributes or a map[string]*common.Payload whose field name mentions search attributes (the two forms the property names)"}
 	res.RuleDoc["O14.7"] = "translation, access control and repair keep no memory between messages: no shipped function of the interceptor, proto/compat, auth and collect packages stores into package-level state, receiver fields or sync.Maps after construction - a cache keyed by message type or content makes the treatment of one message depend on the ones before it"
 	checkStateless(c, res, "O14.7", []string{"interceptor", "proto/compat", "auth", "collect"}, map[string]string{})
+	res.RuleDoc["O14.10"] = "every key is renamed exactly once: no handled container type has, among its own fields, a field that the walker would recognise as a container again (name in searchAttributeFieldNames, type handled) while the callback lets the library descend into a container it has just rebuilt - a second pass renames chained or swapped mappings twice"
+	{
+		descends := false
+		if f := resolve(c, res, "O14.10", anchor{"interceptor", "", "visitSearchAttributes"}); f != nil {
+			if cb := visitCallback(f); cb != nil {
+				for _, call := range flow.Calls(cb) {
+					sc := flow.StaticCallee(call.Common())
+					if sc == nil || sc.Name() != "translateIndexedFields" {
+						continue
+					}
+					for _, b := range cb.Blocks {
+						for _, ins := range b.Instrs {
+							ret, ok := ins.(*ssa.Return)
+							if !ok || len(ret.Results) < 1 || !flow.ReachBlock(call.Block(), b, nil) {
+								continue
+							}
+							for _, alt := range actionAlts(flow.Ret(ret)[0], b, 0) {
+								if alt.val == "Continue" && (alt.block == call.Block() || flow.ReachBlock(call.Block(), alt.block, nil)) {
+									descends = true
+								}
+							}
+						}
+					}
+				}
+			}
+		}
+		n := 0
+		for _, h := range saTypes {
+			pt, ok := h.Underlying().(*types.Pointer)
+			if !ok {
+				continue
+			}
+			st, ok := pt.Elem().Underlying().(*types.Struct)
+			if !ok {
+				continue
+			}
+			for i := 0; i < st.NumFields(); i++ {
+				fl := st.Field(i)
+				if !fl.Exported() {
+					continue
+				}
+				n++
+				again := tabs.saNames[fl.Name()] && handledTypeString(typegraph.ShortType(fl.Type()), saTypes)
+				res.Check(!(again && descends), "O14.10", "field "+fl.Name()+" of the handled container "+typegraph.ShortType(h)+" is not a container to the walker", "", "not in searchAttributeFieldNames with a handled type (or the callback skips the rebuilt container)", "the walker descends into the "+typegraph.ShortType(h)+" it has just rebuilt and recognises its field "+fl.Name()+" as a container again: every key is passed through the mapping a second time - with a -> b, b -> c configured, a arrives as c; with a swap, nothing is renamed")
+			}
+		}
+		if n == 0 {
+			res.Undec("O14.10", "fields of the handled struct containers", "", "no handled container of struct type found")
+		}
+	}
 	res.RuleDoc["O14.9"] = "one matcher, chosen by configuration and not by map order: the translator returns the first entry of its per-namespace matcher map, so that map must have at most one entry - makeServerOptions refuses LenNamespaces() > 1 before building the translator, LenNamespaces is the length of the map FlattenMaps ranges over, and FlattenMaps / createStringMatchers emit exactly one entry per element"
 	checkSingleNamespaceGuard(c, res, "O14.9")
 	res.RuleDoc["O14.8"] = "no swallowed error in the files the mechanism lives in: no function returns a nil error on a path on which an error obtained from a call is known to be non-nil (io.EOF from a stream Recv, the normal end of a receive loop, is the one accepted idiom)"
